@@ -15,6 +15,9 @@ vgi_rpc/http/_client.py
       call = token[end:]
       return token[<H>:end], call or None
           -> gen_dec_header_len := <H> ; gen_dec_width := W32 ; gen_dec_overrun_cmp := CGt ; gen_dec_empty_tail_is_none := true
+  def _init_http_stream_session(...): exactly one try around the read loop whose only handler is
+      except RpcError: _drain_stream(reader); raise
+          -> gen_first_response_error_raises := true   (what M_HttpProd.parse_init models)
 
 vgi_rpc/http/server/_app_stream.py, inside _run_http_producer_turn
   max_bytes = app._max_response_bytes
@@ -128,6 +131,18 @@ def client_part(path: Path) -> list[str]:
         f"Definition gen_dec_overrun_cmp : cmp := {_CMP[type(s3.test.ops[0])]}.",
         "Definition gen_dec_empty_tail_is_none : bool := true.",
     ]
+    # _init_http_stream_session: an RpcError raised while the FIRST response is parsed is re-raised by the call
+    # (model: parse_init ... FErr -> None, the batches read so far are dropped with the session)
+    site = f"{path}:_init_http_stream_session"
+    fn = _func(tree, "_init_http_stream_session", site)
+    tries = [n for n in fn.body if isinstance(n, ast.Try)]
+    if len(tries) != 1 or len(tries[0].handlers) != 1 or tries[0].orelse or tries[0].finalbody:
+        raise TranslationBroken(site, "expected exactly one try/except around the read loop")
+    h = tries[0].handlers[0]
+    if not (h.type is not None and ast.dump(h.type) == E("RpcError") and h.name is None and len(h.body) == 2
+            and ast.dump(h.body[0]) == S("_drain_stream(reader)") and isinstance(h.body[1], ast.Raise) and h.body[1].exc is None):
+        raise TranslationBroken(site, "the handler is not `except RpcError: _drain_stream(reader); raise` -- the model of the first response (M_HttpProd.parse_init / iterate) must be revisited")
+    out.append("Definition gen_first_response_error_raises : bool := true.")
     return out
 
 
